@@ -20,10 +20,11 @@ def asPair (j : Json) : R (Nat × Nat) := do
 def asS2 (j : Json) : R S2 := do
   let a ← j.getArr?
   match a.toList with
-  | [x, y, r, p] => pure ⟨← x.getNat?, ← y.getNat?, ← asRat r, ← asRat p⟩
-  | _ => throw "S2: expected [a, b, r, phi]"
+  | [x, y, r, p] => pure ⟨← x.getNat?, ← y.getNat?, ← asRat r, ← asRat p, false⟩
+  | [x, y, r, p, d] => pure ⟨← x.getNat?, ← y.getNat?, ← asRat r, ← asRat p, ← d.getBool?⟩
+  | _ => throw "S2: expected [a, b, r, phi(, dagger)]"
 
-def jS2 (c : S2) : Json := jarr [jnat c.a, jnat c.b, jrat c.r, jrat c.phi]
+def jS2 (c : S2) : Json := jarr [jnat c.a, jnat c.b, jrat c.r, jrat c.phi, Json.bool c.dag]
 
 def asTCmd (j : Json) : R TCmd := do
   let a ← j.getArr?
